@@ -594,6 +594,12 @@ v('C18', 'fire', T, '    times = times[(times >= state.index[0]) & (times <= sta
 v('C18', 'fire', T, '    return result[state.columns]', '    return result')
 v('C18', 'fire', T, '        difference.alt *= -1', '        difference.alt *= 1')
 v('C18', 'silent', 'util.py', 'result = angle % 360', 'result = np.mod(angle, 360)')
+# DIFF-SCALE (sixth session; survey survivors: the metre factors of the state difference)
+v('C18', 'fire', T, 'difference.lat *= rn * DEG_TO_RAD', 'difference.lat *= rn / DEG_TO_RAD', 'survey: degree factor inverted')
+v('C18', 'fire', T, 'difference.lon *= rp * DEG_TO_RAD', 'difference.lon *= rp * RAD_TO_DEG', 'wrong conversion constant')
+v('C18', 'fire', T, 'difference.lon *= rp * DEG_TO_RAD', 'difference.lon *= rp', 'degrees taken as radians')
+v('C18', 'silent', T, 'difference.lat *= rn * DEG_TO_RAD', 'difference.lat *= np.deg2rad(rn)', 'deg2rad spelling of the factor')
+v('C18', 'silent', T, 'difference.lat *= rn * DEG_TO_RAD', 'difference.lat *= rn\n        difference.lat /= RAD_TO_DEG', 'factor applied in two steps')
 # ------------------------------------------------------------------ purity C19
 v('C19', 'fire', T, 'lla = np.atleast_2d(lla).copy()', 'lla = np.atleast_2d(lla)')
 v('C19', 'fire', T, 'result = trajectory.copy()\n    result[LLA_COLS]', 'result = trajectory\n    result[LLA_COLS]')
